@@ -236,7 +236,7 @@ def chain_case(ctx, case):
           f'chain length {n} deviations {devs}', now)
 
 
-def chain_cases(maxlen, pairs_upto=3):
+def chain_cases(maxlen, pairs_upto=3, triples_upto=0):
     out = []
     per_link = [('pos', p) for p in WINDOW if p != 'begin+1'] + [('can', False)] + [('signer', 'root'), ('signer', 'outsider')]
     for n in range(1, maxlen + 1):
@@ -251,6 +251,10 @@ def chain_cases(maxlen, pairs_upto=3):
                 if a[0] == b[0] and a[1] == b[1]:
                     continue
                 out.append((n, (a, b)))
+        if n <= triples_upto:
+            for tr in itertools.combinations(singles + globals_[:2], 3):
+                if len({(x[0], x[1]) for x in tr}) == 3:
+                    out.append((n, tr))
     return list(dict.fromkeys(out))
 
 
@@ -513,13 +517,13 @@ def blocks(tier, seed):
     q = tier == 'quick'
     maxlen = 4 if q else 12
     singles = [(p, c, s) for p in WINDOW for c in (True, False) for s in SIGNERS]
-    cc = chain_cases(maxlen, 3 if q else 5)
+    cc = chain_cases(maxlen, 3 if q else 12, 0 if q else 5)
     return [
         Block('single_lock_product', singles, single_case,
               'window position x may-delegate x certificate signer x clock slack {58..61} x final signer x 5 flag/allowed pairs; all '
               'certificate byte flips', nshards=len(singles)),
         Block('chain_lock_deviations', cc, chain_case,
-              'chain lengths 1..%d: all-good, every single-link deviation at every position, all pairs for length <= 3' % maxlen,
+              'chain lengths 1..%d: all-good, every single-link deviation at every position, all pairs for length <= %d%s' % (maxlen, 3 if q else 12, '' if q else ', all triples for length <= 5'),
               nshards=min(len(cc), 128)),
         Block('chain_splices_orders_markers', list(range(1, (4 if q else 6) + 1)), splice_case,
               'cross-chain splices, all certificate orders, all marker patterns, prefix chains', nshards=8),
